@@ -364,9 +364,16 @@ func (prog Progress) focusedTransform(n datamodel.Node, na datamodel.NodeAssembl
 		if err != nil {
 			if seg.String() == "-" {
 				ti = -1
+				if p2.Len() > 0 && !createParents {
+					// Going deeper below the element to be appended means creating parents, same as for a missing map key.
+					return fmt.Errorf("transform: parent position at %q did not exist (and createParents was false)", prog.Path.AppendSegment(datamodel.PathSegmentOfInt(n.Length())))
+				}
 			} else {
 				return fmt.Errorf("transform: cannot navigate path segment %q at %q because a list is here", seg, prog.Path)
 			}
+		} else if ti < 0 {
+			// Only the segment "-" means append; a negative number is just an index that doesn't exist.
+			return fmt.Errorf("transform: cannot navigate path segment %q at %q because it is beyond the list bounds", seg, prog.Path)
 		}
 		// Copy children over.  Replace the target (preserving its current position!) while doing this, if found.
 		//  Note that we don't recurse into copying children (assuming AssignNode doesn't); this is as shallow/COW as the AssignNode implementation permits.
